@@ -34,9 +34,19 @@ func (o unmarshalOptions) Options() proto.UnmarshalOptions {
 		AllowPartial:   true,
 		DiscardUnknown: o.DiscardUnknown(),
 		Resolver:       o.resolver,
+		RecursionLimit: o.recursionLimit(),
 
 		NoLazyDecoding: o.NoLazyDecoding(),
 	}
+}
+
+// recursionLimit returns the remaining depth budget in the form expected by
+// proto.UnmarshalOptions.RecursionLimit, where zero selects the default.
+func (o unmarshalOptions) recursionLimit() int {
+	if o.depth <= 0 {
+		return -1 // exhausted: any further nesting fails
+	}
+	return o.depth
 }
 
 func (o unmarshalOptions) DiscardUnknown() bool {
